@@ -6,6 +6,7 @@ import (
 	"fmt"
 	"io"
 	"net"
+	"net/http"
 	"os"
 	"path/filepath"
 	"strconv"
@@ -416,6 +417,20 @@ type C08SrvCase struct {
 	Streams int  `json:"streams"` // listening streams / legacy sessions opened and then abandoned
 	Calls   int  `json:"calls"`   // tool calls in progress (blocked in the handler) when their peer leaves
 	Reopen  bool `json:"reopen"`  // Streamable: every session's stream is replaced once before the peers leave
+	// CtxFunc: the server's HTTP context function: 0 none, 1 derives from the context it is given, 2 returns a context of its own
+	// (values on a fresh background context) - what a context function returns carries values, the connection's life is the request's
+	CtxFunc int `json:"ctxfunc,omitempty"`
+}
+
+type c08CtxKey struct{}
+
+func c08CtxFunc(kind int) func(ctx context.Context, r *http.Request) context.Context {
+	return func(ctx context.Context, r *http.Request) context.Context {
+		if kind == 2 {
+			return context.WithValue(context.Background(), c08CtxKey{}, r.Header.Get("X-Who"))
+		}
+		return context.WithValue(ctx, c08CtxKey{}, r.Header.Get("X-Who"))
+	}
 }
 
 func execC08Srv(c C08SrvCase) *Failure {
@@ -424,7 +439,12 @@ func execC08Srv(c C08SrvCase) *Failure {
 	if c.Legacy {
 		mode = ModeLegacy
 	}
-	w := NewWorld(mode, RegSpec{}, WorldOpt{})
+	var wo WorldOpt
+	if c.CtxFunc > 0 {
+		wo.ServerOpts = append(wo.ServerOpts, mcp.WithHTTPContextFunc(c08CtxFunc(c.CtxFunc)))
+		wo.SSEOpts = append(wo.SSEOpts, mcp.WithSSEContextFunc(c08CtxFunc(c.CtxFunc)))
+	}
+	w := NewWorld(mode, RegSpec{}, wo)
 	defer w.Close()
 	var inHandler, released atomic.Int64
 	RegistrarOf(serverOf(w)).RegisterTool(mcp.NewTool("block"), func(ctx context.Context, req *mcp.CallToolRequest) (*mcp.CallToolResult, error) {
@@ -437,9 +457,14 @@ func execC08Srv(c C08SrvCase) *Failure {
 			return mcp.NewTextResult("timeout"), nil
 		}
 	})
+	if c.CtxFunc == 2 {
+		// a handler that waits on a context the application itself cut loose from the request is the application's business:
+		// only the library's own stream handlers are judged under such a context function
+		c.Calls = 0
+	}
 	var h = w.handlerOf()
 	var lives []*LiveResp
-	where := fmt.Sprintf("legacy=%v streams=%d calls=%d reopen=%v", c.Legacy, c.Streams, c.Calls, c.Reopen)
+	where := fmt.Sprintf("legacy=%v streams=%d calls=%d reopen=%v ctxfunc=%d", c.Legacy, c.Streams, c.Calls, c.Reopen, c.CtxFunc)
 	for i := 0; i < c.Streams; i++ {
 		if c.Legacy {
 			lr := StartLive(h, "GET", "http://verif/sse", map[string]string{"Accept": "text/event-stream"}, nil, nil)
@@ -490,7 +515,7 @@ func execC08Srv(c C08SrvCase) *Failure {
 	if n := mcp.VerifStreamCount(serverOf(w)); n != 0 {
 		return TimingFailf("C08/server/stream-entries-left", "%s: %d stream / session entries are still registered after every peer has gone", where, n)
 	}
-	if !c.Legacy && released.Load() != int64(c.Streams*c.Calls) {
+	if !c.Legacy && c.CtxFunc != 2 && released.Load() != int64(c.Streams*c.Calls) {
 		return TimingFailf("C08/server/handler-context-not-cancelled", "%s: %d of %d handlers in progress saw their context end", where, released.Load(), c.Streams*c.Calls)
 	}
 	if d := WaitNoLeak(before, Patience()); len(d) > 0 {
@@ -502,7 +527,7 @@ func execC08Srv(c C08SrvCase) *Failure {
 func TestC08Server(t *testing.T) {
 	RunProp(t, Prop[C08SrvCase]{ID: "C08",
 		Gen: func(t *rapid.T) C08SrvCase {
-			return C08SrvCase{Legacy: rapid.Bool().Draw(t, "legacy"), Streams: rapid.IntRange(1, 6).Draw(t, "streams"), Calls: rapid.IntRange(0, 3).Draw(t, "calls"), Reopen: rapid.Bool().Draw(t, "reopen")}
+			return C08SrvCase{Legacy: rapid.Bool().Draw(t, "legacy"), Streams: rapid.IntRange(1, 6).Draw(t, "streams"), Calls: rapid.IntRange(0, 3).Draw(t, "calls"), Reopen: rapid.Bool().Draw(t, "reopen"), CtxFunc: rapid.IntRange(0, 2).Draw(t, "ctxfunc")}
 		},
 		Exec: execC08Srv,
 		NT: func(c C08SrvCase) (bool, []string) {
